@@ -361,32 +361,15 @@ func (e *Evaluator) evalCaseMatch(value *Cell, exprs []Expr) (bool, map[string]*
 				return true, nil, nil
 			}
 		case *ExprArray:
-			if value.Value.Tag != ValueArray {
-				return false, nil, nil
+			// an array pattern that doesn't match must not stop the other
+			// alternatives of this case from being tried
+			match, bindings, err := e.evalArrayCaseMatch(value, ex)
+			if err != nil {
+				return false, nil, err
 			}
-
-			array := value.Value.Array
-			if len(array) != len(ex.Items) {
-				return false, nil, nil
+			if match {
+				return true, bindings, nil
 			}
-
-			bindings := make(map[string]*Cell)
-
-			for i, item := range array {
-				exprToMatch := ex.Items[i]
-				match, newBindings, err := e.evalCaseMatch(item, []Expr{exprToMatch})
-				if err != nil {
-					return false, nil, err
-				}
-				if !match {
-					return false, nil, nil
-				}
-				for k, v := range newBindings {
-					bindings[k] = v
-				}
-			}
-
-			return true, bindings, nil
 		case *ExprIdentifier:
 			bindings := make(map[string]*Cell)
 			ident := e.lexer.GetString(&ex.token)
@@ -397,6 +380,35 @@ func (e *Evaluator) evalCaseMatch(value *Cell, exprs []Expr) (bool, map[string]*
 		}
 	}
 	return false, nil, nil
+}
+
+func (e *Evaluator) evalArrayCaseMatch(value *Cell, pattern *ExprArray) (bool, map[string]*Cell, error) {
+	if value.Value.Tag != ValueArray {
+		return false, nil, nil
+	}
+
+	array := value.Value.Array
+	if len(array) != len(pattern.Items) {
+		return false, nil, nil
+	}
+
+	bindings := make(map[string]*Cell)
+
+	for i, item := range array {
+		exprToMatch := pattern.Items[i]
+		match, newBindings, err := e.evalCaseMatch(item, []Expr{exprToMatch})
+		if err != nil {
+			return false, nil, err
+		}
+		if !match {
+			return false, nil, nil
+		}
+		for k, v := range newBindings {
+			bindings[k] = v
+		}
+	}
+
+	return true, bindings, nil
 }
 
 func (e *Evaluator) callFunction(exp *ExprCall, fn *Cell, args []*Value) (*Cell, error) {
